@@ -353,4 +353,16 @@ def units():
                 v['id'] = u['id'].replace('op.', 'cfg.%s.' % cfg, 1); v['cfg'] = cfg; v['props'] = ['C16']; v['tier'] = tier
                 extra.append(v)
     us.extend(extra)
+    # inheritance chains of the public vector types (most derived first): an operation unit whose target lives in a base class is
+    # 'hidden' when a more derived class declares the same member (checked at unit build time, tools/pipeline.py)
+    for u in us:
+        t = u['target']
+        for sz in ('u8', 'u16'):
+            chains = [['Vector_E_A_%s_Dyn_4' % sz, 'VectorWithInplaceStorage_E_A_%s_Dyn_4' % sz, 'VectorImpl_E_A_%s_t_Dyn' % sz, 'VectorDestr_E_A_%s_t_Dyn_t' % sz, 'DynamicVector_E_A_%s_t' % sz, 'SmallVectorBase_E_A_%s' % sz],
+                      ['Vector_E_A_%s_Dyn_0' % sz, 'VectorWithInplaceStorage_E_A_%s_Dyn_0' % sz, 'VectorImpl_E_A_%s_f_Dyn' % sz, 'VectorDestr_E_A_%s_f_Dyn_t' % sz, 'DynamicVector_E_A_%s_f' % sz, 'StdVectorBase_E_A_%s' % sz],
+                      ['Vector_E_X_%s_Exc_4' % sz, 'VectorWithInplaceStorage_E_X_%s_Exc_4' % sz, 'VectorImpl_E_X_%s_t_Exc' % sz, 'VectorDestr_E_X_%s_t_Exc_t' % sz, 'StaticVector_E_%s_Exc' % sz, 'StaticVectorBase_E_%s' % sz]]
+            for ch in chains:
+                for i, cls in enumerate(ch):
+                    if t.startswith(cls + '__') and i > 0 and u['id'].startswith(('op.', 'cfg.', 'swap2.')):
+                        u['hidden_by'] = ch[:i]
     return us
